@@ -79,10 +79,10 @@ def run(model, rep, tier):
     ok = False
     if loops:
         it = unparse(loops[0].iter)
-        div = [n for n in call.body if isinstance(n, ast.AugAssign) and isinstance(n.op, ast.Div) and unparse(n.value) == 'self.NG']
-        acc = [n for n in loops[0].body if isinstance(n, ast.AugAssign) and isinstance(n.op, ast.Add)]
+        div = [u for u in map(_update, call.body) if u and u[1] == 'Div' and unparse(u[2]) == 'self.NG']
+        acc = [u for u in map(_update, loops[0].body) if u and u[1] == 'Add']
         ok = 'self.grouparray' in it and 'self.indexpair[i][j]' in it and len(div) == 1 and len(acc) == 1 \
-            and unparse(div[0].target) == unparse(acc[0].target)
+            and div[0][0] == acc[0][0]
     rep.ob('group-average', mod, call, '__call__: sum over zip(self.grouparray, self.indexpair[i][j]) divided by self.NG', ok,
            '' if ok else 'the symmetrised inverse Fourier transform is not the average over the stored operations',
            engine='flow', qual='GFCrystalcalc.__call__')
@@ -102,9 +102,13 @@ def run(model, rep, tier):
     # pairs are looked up with the symmetry-mapped indices and the rotated displacement
     ok = False
     if loops and isinstance(loops[0].target, ast.Tuple) and len(loops[0].target.elts) == 2:
-        gop_, pair_ = [unparse(t) for t in loops[0].target.elts]
+        gop_ = unparse(loops[0].target.elts[0])
+        pt = loops[0].target.elts[1]
+        # the mapped site pair: ``pair`` used as pair[0], pair[1] -- or unpacked in the loop target as (gi, gj)
+        want = '%s, %s' % tuple(unparse(x) for x in pt.elts) if isinstance(pt, ast.Tuple) and len(pt.elts) == 2 \
+            else '%s[0], %s[1]' % (unparse(pt), unparse(pt))
         dxp = call.args.args[3].arg if len(call.args.args) > 3 else 'dx'
-        ok = pattern.has(loops[0], 'self.gsc_ijq[_N_p[0], _N_p[1]]', 'expr', _N_p=pair_) and \
+        ok = pattern.has(loops[0], 'self.gsc_ijq[%s]' % want, 'expr') and \
             pattern.has(loops[0], 'self.exp_dxq(np.dot(_N_gop, _N_dx))', 'expr', _N_gop=gop_, _N_dx=dxp)
     rep.ob('group-average', mod, call, '__call__: term uses gsc_ijq[pair[0], pair[1]] with exp(-i q.(gop dx))', ok,
            '' if ok else 'site pair and displacement are not transformed by the same operation', engine='flow',
@@ -123,6 +127,19 @@ def run(model, rep, tier):
                qual='GFCrystalcalc.' + m)
     dim_generic(model, rep, [('GFcalc', '')], min_functions=18)
     names_and_calls_resolve(model, rep, [('GFcalc', 'GFCrystalcalc.'), ('GFcalc', 'Fnl_p.'), ('GFcalc', 'Fnl_u.')])
+
+
+def _update(st):
+    """(target text, operator name, operand) of ``t op= e`` or of the spelled-out ``t = t op e`` (``t = e + t`` for +)."""
+    if isinstance(st, ast.AugAssign):
+        return unparse(st.target), type(st.op).__name__, st.value
+    if isinstance(st, ast.Assign) and len(st.targets) == 1 and isinstance(st.value, ast.BinOp):
+        t = unparse(st.targets[0])
+        if unparse(st.value.left) == t:
+            return t, type(st.value.op).__name__, st.value.right
+        if isinstance(st.value.op, ast.Add) and unparse(st.value.right) == t:
+            return t, 'Add', st.value.left
+    return None
 
 
 G = 'onsager/GFcalc.py'
